@@ -60,9 +60,32 @@ def run_case(case):
         return p
     agg = dict(max=0, agf=0, bad=[])
 
+    def sdp_round(llc):
+        """Two name lookups pending at once whose requests take d octets
+        more than the peer's MIU together: what collect() returns must fit
+        (the link is down already, the lookups end with the shutdown)."""
+        m = llc.cfg['send-miu']
+        sdp = llc.sap[1]
+        if sdp is None or m > 480:      # names are at most 255 octets
+            return
+        for d in (0, 1, 2):
+            total = m + d - 6
+            la = total // 2 - 1
+            names = [b'urn:nfc:sn:' + b'%c' % (0x61 + i) * (n - 11)
+                     for i, n in enumerate((la, total - la))]
+            for k, name in enumerate(names):
+                sdp.sdreq.append((0x40 + 2 * d + k, name))
+            for _ in range(3):
+                frame = llc.collect() or pdu.Symmetry()
+                size = len(pdu.encode(frame)) - 2
+                if size > m:
+                    agg['bad'].append((m, d, size, frame.name + '|lookups'))
+            sdp.sdreq.clear()
+
     def after_ini(clf, ctx):
         llc = ctx['llc']['ini']
         n = llc.cfg['send-miu']
+        sdp_round(llc)
         if llc.cfg['send-agf']:
             agg_round(llc, None)
         for k in range(3):
